@@ -154,13 +154,13 @@ func (x *rulePkg) encoderArm(code uint64) encArm {
 					} else {
 						switch n {
 						case "values":
-							valTerm = Term(elems[0])
+							valTerm = p.Term(elems[0])
 						case "strings":
-							strTerm = Term(elems[0])
+							strTerm = p.Term(elems[0])
 						case "fields":
-							fieldTerm = Term(elems[0])
+							fieldTerm = p.Term(elems[0])
 						case "fieldFlags":
-							flagTerm = Term(elems[0])
+							flagTerm = p.Term(elems[0])
 						}
 					}
 				} else {
@@ -447,7 +447,8 @@ func (x *rulePkg) decoderArm(code uint64) decArm {
 			arm.LhsOK = true
 			continue
 		}
-		if sp != fcall || len(els) != 3 || els[0] == nil || els[1] == nil || els[2] == nil {
+		_ = fcall // any "-F <field><op><value>" rendering inside the loop will do (a string field may have its own)
+		if parts[0].Lit != "-F " || len(els) != 3 || els[0] == nil || els[1] == nil || els[2] == nil {
 			arm.Problems = append(arm.Problems, "unexpected rendering "+Term(sp))
 			continue
 		}
@@ -668,10 +669,19 @@ func propC07(r *Run, w *World) {
 	r.Rule("C07.R3", "the operator is rendered: every rendered filter argument (-F, -C, arch) includes reverseOperatorsTable[fieldFlags[i]] of the same filter", 3)
 	{
 		n := 0
+		kindsSeen := map[string]bool{}
 		for _, root := range renderRoots(x.toCmd, "-F ", "-C ", "arch") {
 			parts := renderParts(root)
 			f := parts[0].Lit
 			n++
+			switch {
+			case strings.HasPrefix(f, "-F "):
+				kindsSeen["-F"] = true
+			case strings.HasPrefix(f, "-C "):
+				kindsSeen["-C"] = true
+			case strings.HasPrefix(f, "arch"):
+				kindsSeen["arch"] = true
+			}
 			hasOp := false
 			nVals := 0
 			for _, pt := range parts[1:] {
@@ -696,7 +706,8 @@ func propC07(r *Run, w *World) {
 			r.Check(hasOp && nVals >= 2, "ToCommandLine render "+strings.TrimSpace(f), root.Pos(), "operator taken from the filter's flags",
 				fmt.Sprintf("the argument rendered with prefix %q does not include the filter's operator: every operator is listed as a literal (e.g. arch!=b64 lists as arch=b64)", f))
 		}
-		r.Check(n == 3, "render sites", x.toCmd.Pos(), "", fmt.Sprintf("%d rendering sites found (want -F, -C, arch)", n))
+		// each of the three kinds is rendered somewhere (every site was checked above; a kind may have more than one)
+		r.Check(n >= 3 && len(kindsSeen) == 3, "render sites", x.toCmd.Pos(), "", fmt.Sprintf("%d rendering sites found for %d kinds (want -F, -C, arch)", n, len(kindsSeen)))
 		// per-field operator/LHS wiring
 		for _, name := range x.sortedFieldNames() {
 			if name == "arch" {
